@@ -3,7 +3,7 @@
    arguments and encoding of results is done here, inside Coq, so that the
    OCaml driver contains no logic and the same cases can be re-evaluated with
    vm_compute in the kernel. *)
-From PSA Require Import model.Bytes model.Checksum model.Layer model.Dhcp spec.SpecCodec.
+From PSA Require Import model.Bytes model.Checksum model.Layer model.Dhcp model.Clients model.Ipdb model.IpdbCheck spec.SpecCodec.
 Open Scope N_scope.
 
 Definition arg (args : list (list N)) (i : nat) : list N := nth i args [].
@@ -66,7 +66,46 @@ Definition dispatch_c12 (tag : N) (a : list (list N)) : list (list N) :=
   | _ => [[99]]
   end.
 
+(* ---- C11: lease database histories ---- *)
+Definition optn (some v : N) : option N := if some =? 0 then None else Some v.
+Definition zt (neg abs_ : N) : Z := if neg =? 0 then Z.of_N abs_ else (- Z.of_N abs_)%Z.
+
+(* every operation is three lists: header, client id, extra *)
+Definition dec_hop (h d e : list N) : hop :=
+  let g i := nth i h 0 in
+  match g 0%nat with
+  | 1 => HUpdate (optn (g 1%nat) (g 2%nat)) d (zt (g 3%nat) (g 4%nat))
+  | 2 => HLookup d
+  | 3 => HAddPerm (optn (g 1%nat) (g 2%nat)) d
+  | 4 => HFind (optn (g 1%nat) (g 2%nat)) d e (optn (g 3%nat) (g 4%nat)) (Z.of_N (g 5%nat)) (Z.of_N (g 6%nat))
+  | 5 => HAdvance (Z.of_N (g 1%nat))
+  | _ => HInRange (optn (g 1%nat) (g 2%nat))
+  end.
+Fixpoint dec_hops (l : list (list N)) : list hop :=
+  match l with h :: d :: e :: r => dec_hop h d e :: dec_hops r | _ => [] end.
+
+(* config: network, mask, has_range, range begin, range end (some flags), disabled *)
+Definition dec_ipdb (c : list N) : option ipdb :=
+  let g i := nth i c 0 in
+  let x := ipdb_new (g 0%nat) (g 1%nat) in
+  let x1 := if g 2%nat =? 0 then Some x else set_dynamic_range x (optn (g 3%nat) (g 4%nat)) (optn (g 5%nat) (g 6%nat)) in
+  match x1 with
+  | None => None
+  | Some y => Some (if g 7%nat =? 0 then y else disable_dynamic y)
+  end.
+
+Definition dispatch_c11 (tag : N) (a : list (list N)) : list (list N) :=
+  match tag with
+  | 1101 => match dec_ipdb (arg a 0) with
+            | None => [[0]]
+            | Some x => [1; net_from x; net_to x; dyn_from x; dyn_to x] :: hrun x 0%Z (dec_hops (skipn 1 a))
+            end
+  | 1102 => let (f, t) := from_to (argn a 0 0) (argn a 0 1) in [[f; t]]
+  | _ => [[99]]
+  end.
+
 Definition dispatch (tag : N) (a : list (list N)) : list (list N) :=
   if (1300 <=? tag) && (tag <? 1400) then dispatch_c13 tag a
   else if (1200 <=? tag) && (tag <? 1300) then dispatch_c12 tag a
+  else if (1100 <=? tag) && (tag <? 1200) then dispatch_c11 tag a
   else [[99]].
